@@ -719,6 +719,17 @@ func (ex *Exec) havocClosed(st *State) {
 	for _, p := range st.pinned {
 		st.assume("(= (select " + nw + " " + p + ") (select " + old + " " + p + "))")
 	}
+	// channels of a class that is closed only under a lock this path holds keep their closedness
+	// (every close site proves: class K => that lock is held)
+	for _, h := range st.held {
+		if ls := ex.specs.Locks[h.Key]; ls != nil {
+			for _, cn := range ls.Closes {
+				if cc := ex.specs.Classes[cn]; cc != nil {
+					st.assume(fmt.Sprintf("(forall ((c Int)) (! (=> (= (ch_class c) %d) (= (select %s c) (select %s c))) :pattern ((select %s c))))", cc.ID, nw, old, nw))
+				}
+			}
+		}
+	}
 }
 
 func (ex *Exec) notClosed(st *State, ch Val) string {
@@ -732,6 +743,25 @@ func (ex *Exec) notClosed(st *State, ch Val) string {
 }
 
 func (ex *Exec) doClose(st *State, fr *Frame, instr ssa.Instruction, ch Val) {
+	// classes closed only under a lock: this close either is not of such a class or holds the lock
+	for lk, ls := range ex.specs.Locks {
+		for _, cn := range ls.Closes {
+			cc := ex.specs.Classes[cn]
+			if cc == nil {
+				ex.specError("lock %s closes unknown class %s", lk, cn)
+				continue
+			}
+			held := false
+			for _, h := range st.held {
+				if h.Key == lk {
+					held = true
+				}
+			}
+			if !held {
+				ex.oblige(st, "close-census", fmt.Sprintf("%s#close@class.%s#%d", fr.key, cn, ex.ordinalOf(fr, instr, "close")), []string{"*"}, fmt.Sprintf("(distinct (ch_class %s) %d)", ch.T, cc.ID), nil, ex.posOf(instr))
+			}
+		}
+	}
 	ex.oblige(st, "close-census", fmt.Sprintf("%s#close@neverclosed#%d", fr.key, ex.ordinalOf(fr, instr, "close")), []string{"*"}, "(not (ch_nc "+ch.T+"))", nil, ex.posOf(instr))
 	ex.safety(st, fr, instr, "close", "nil", "(distinct "+ch.T+" 0)")
 	ex.safety(st, fr, instr, "close", "closed", "(not "+st.read("closed", "Bool", ch.T)+")")
